@@ -3,6 +3,7 @@
 package system
 
 import (
+	"net"
 	"os"
 
 	"github.com/jsimonetti/rtnetlink"
@@ -18,6 +19,25 @@ var verifLinux struct {
 	readFile  func(string) ([]byte, error)
 	writeFile func(string, []byte, os.FileMode) error
 	rtnlDial  func(*netlink.Config) (VerifRtnlConn, error)
+	ifaces    func() ([]net.Interface, error)
+}
+
+// verifInterfaces stands in for net.Interfaces inside the staged copy of LoopbackRoutes.
+func verifInterfaces() ([]net.Interface, error) {
+	verifMu.RLock()
+	f := verifLinux.ifaces
+	verifMu.RUnlock()
+	if f == nil {
+		return net.Interfaces()
+	}
+	return f()
+}
+
+// VerifSetInterfaces replaces (nil: restores) net.Interfaces as seen by LoopbackRoutes.
+func VerifSetInterfaces(f func() ([]net.Interface, error)) {
+	verifMu.Lock()
+	verifLinux.ifaces = f
+	verifMu.Unlock()
 }
 
 func verifReadFile(name string) ([]byte, error) {
